@@ -25,6 +25,7 @@ import (
 //	putFail(k,v)  evFail(x)  fail()  abort()
 //	call(h,m,args)      -> System.Contract.Call(h,m,All,args)
 //	tryCall(h,m,args)   -> try{call} catch{}; then notify "ok"/"caught"
+//	tryCallF(h,m,args,f)-> the same with call flags f
 //	seq(list)           -> for [m,args] in list: Contract.Call(self,m,All,args)
 //	onNEP17Payment(from,amount,data) -> abort when data=="reject", throw when data=="throw", else put("paid",amount)+notify
 //	oracleCb(url,userData,code,result) -> put("ores",result) put("ocode",code) notify(url); throw when userData=="fail"
@@ -146,6 +147,34 @@ func buildK(name string, variant byte) *kContract {
 			tryPos := b.Len()
 			emit.Instruction(w, opcode.TRY, []byte{0, 0})
 			emit.Opcodes(w, opcode.LDARG2, opcode.PUSH15, opcode.LDARG1, opcode.LDARG0)
+			sys(w, interopnames.SystemContractCall)
+			emit.Opcodes(w, opcode.DROP)
+			emit.String(w, "ok")
+			emit.Opcodes(w, opcode.STLOC0)
+			endtry1 := b.Len()
+			emit.Instruction(w, opcode.ENDTRY, []byte{0})
+			catchPos := b.Len()
+			emit.Opcodes(w, opcode.DROP)
+			emit.String(w, "caught")
+			emit.Opcodes(w, opcode.STLOC0)
+			endtry2 := b.Len()
+			emit.Instruction(w, opcode.ENDTRY, []byte{0})
+			endPos := b.Len()
+			emit.Opcodes(w, opcode.LDLOC0)
+			notifyTop(w)
+			emit.Opcodes(w, opcode.RET)
+			patches = append(patches,
+				patch{tryPos + 1, byte(catchPos - tryPos)},
+				patch{endtry1 + 1, byte(endPos - endtry1)},
+				patch{endtry2 + 1, byte(endPos - endtry2)})
+		}},
+		{"tryCallF", 4, smartcontract.VoidType, func(b *io.BufBinWriter) {
+			// tryCall with the call flags given by the caller (a3)
+			w := b.BinWriter
+			emit.InitSlot(w, 1, 4)
+			tryPos := b.Len()
+			emit.Instruction(w, opcode.TRY, []byte{0, 0})
+			emit.Opcodes(w, opcode.LDARG2, opcode.LDARG3, opcode.LDARG1, opcode.LDARG0)
 			sys(w, interopnames.SystemContractCall)
 			emit.Opcodes(w, opcode.DROP)
 			emit.String(w, "ok")
